@@ -737,6 +737,13 @@ class Wild(Family):
             Doc('wd-skip-wrongns', D('', None, '<w:known>1</w:known>'), 'fault:wildcard'),
             Doc('wd-tail-target', D(tail=' <w:known>1</w:known>\n'), 'fault:wildcard'),
             Doc('wd-tail-many', D(tail=''.join(f' <o:t n="{i}"/>\n' for i in range(15)))),
+            Doc('wd-lax-unknown-xsitype', D('<unq xmlns:xsi="http://www.w3.org/2001/XMLSchema-instance" '
+                                            'xmlns:xs="http://www.w3.org/2001/XMLSchema" xsi:type="xs:int">5</unq>')),
+            Doc('wd-lax-unknown-nil', D('<unq xmlns:xsi="http://www.w3.org/2001/XMLSchema-instance" xsi:nil="true"/>'),
+                'fault:nil'),
+            Doc('wd-lax-unknown-xsitype-nil', D('<unq xmlns:xsi="http://www.w3.org/2001/XMLSchema-instance" '
+                                                'xmlns:xs="http://www.w3.org/2001/XMLSchema" xsi:type="xs:int" xsi:nil="true"/>')),
+            Doc('wd-lax-unknown-plain', D('<unq>text</unq><unq2 a="1"/>')),
             Doc('wd-tail-nested', D('<o:x><o:y><o:z/></o:y></o:x>', tail=' <o:t1><o:d1><o:d2>t</o:d2></o:d1></o:t1>\n <o:t2/>\n')),
         ]
 
@@ -889,11 +896,14 @@ class Assert11(Family):
      <xs:alternative test="@kind='s'" type="StrRow"/>
      <xs:alternative type="AnyRow"/>
     </xs:element>
+    <xs:element name="sc" type="SC" minOccurs="0" maxOccurs="unbounded"/>
    </xs:sequence>
    <xs:attribute name="total" type="xs:int" inheritable="true"/>
    <xs:assert test="count(row) le 40"/>
   </xs:complexType>
  </xs:element>
+ <xs:complexType name="SC"><xs:simpleContent><xs:extension base="xs:string">
+   <xs:assert test="string-length($value) le 3"/></xs:extension></xs:simpleContent></xs:complexType>
  <xs:complexType name="AnyRow"><xs:sequence><xs:any processContents="lax" minOccurs="0" maxOccurs="unbounded"/></xs:sequence>
    <xs:attribute name="kind" type="xs:string"/></xs:complexType>
  <xs:complexType name="NumRow"><xs:complexContent><xs:extension base="AnyRow">
@@ -920,6 +930,10 @@ class Assert11(Family):
         out.append(Doc('a11-bad-assertion', self._doc(['<row kind="s" s="abc"/>']), 'fault:assert'))
         out.append(Doc('a11-bad-alt', self._doc(['<row kind="n"/>']), 'fault:structure'))
         out.append(Doc('a11-bad-count', self._doc([good[2]] * 41), 'fault:assert'))
+        out.append(Doc('a11-sc-valid', self._doc([good[0], '<sc>ab</sc>', '<sc/>', '<sc>xyz</sc>'])))
+        out.append(Doc('a11-sc-empty', self._doc([good[1], '<sc/>', '<sc></sc>'])))
+        out.append(Doc('a11-sc-bad', self._doc([good[0], '<sc>abcdef</sc>']), 'fault:assert'))
+        out.append(Doc('a11-sc-bad-then-empty', self._doc([good[0], '<sc>abcdef</sc>', '<sc/>']), 'fault:assert'))
         return out
 
 
